@@ -107,6 +107,9 @@ def class_source(prog, ci, S, direct=False):
             a = ann(cont, tgt, False)
         elif sp == "str":
             a = ann(cont, repr(tgt), True) if cont != "req" else repr(tgt)
+        elif sp == "dotted":
+            # through the module object (as in `import models` ... 'models.Customer' during a circular import)
+            a = ann(cont, repr("MOD." + tgt), True) if cont != "req" else repr("MOD." + tgt)
         elif sp == "whole":
             a = repr(ann(cont, tgt, False))
         elif sp == "self":
@@ -132,7 +135,7 @@ def class_source(prog, ci, S, direct=False):
 
 
 HEADER = ("from utype import Schema, DataClass, Field, Options, Rule\nimport utype\n"
-          "from typing import List, Dict, Optional, Union, Iterator, Generator, Literal, Tuple, Final, ClassVar\nfrom utype.utils.compat import Self\n")
+          "from typing import List, Dict, Optional, Union, Iterator, Generator, Literal, Tuple, Final, ClassVar\nfrom utype.utils.compat import Self\nimport sys as _sys\nMOD = _sys.modules[__name__]\n")
 
 
 def alias_source(S):
@@ -545,7 +548,7 @@ def generate(rng, tier):
         for r in classes[ci]["refs"]:
             if r["cont"] == "req" and pos[r["to"]] >= pos[ci]:
                 r["cont"] = "opt"
-            choices = ["str", "str", "whole"]
+            choices = ["str", "str", "whole", "dotted"]
             if r["to"] == ci:
                 choices.append("self")
             if pos[r["to"]] < pos[ci] and not future:
